@@ -15,7 +15,8 @@ type Desc struct {
 	N        int  // number of values
 	NPos     int  // number of values with non-zero weight
 	Weighted bool // ws != nil
-	IntW     bool // all weights are non-negative integers (true when unweighted)
+	IntW     bool // all weights are non-negative integers <= 64 (true when unweighted)
+	IntWhole bool // all weights are non-negative whole numbers of any size (true when unweighted)
 
 	W       float64 // total weight (n when unweighted)
 	Sum     float64 // sum of w*x
@@ -45,7 +46,7 @@ func Describe(xs, ws []float64) *Desc {
 // mean (used by the self-test to compare the two routes).
 func describe(xs, ws []float64, logPath bool) *Desc {
 	nan := math.NaN()
-	d := &Desc{N: len(xs), Weighted: ws != nil, IntW: true,
+	d := &Desc{N: len(xs), Weighted: ws != nil, IntW: true, IntWhole: true,
 		Mean: nan, MeanAbs: nan, Var: nan, SD: nan, SS: nan, SumSq: nan,
 		Geo: nan, MeanAbsLog: nan, Min: nan, Max: nan}
 	sum, sumAbs, W, sumSq := nf(), nf(), nf(), nf()
@@ -56,6 +57,9 @@ func describe(xs, ws []float64, logPath bool) *Desc {
 		}
 		if w != math.Trunc(w) || w < 0 || w > 64 {
 			d.IntW = false
+		}
+		if w != math.Trunc(w) || w < 0 {
+			d.IntWhole = false
 		}
 		bx, bw := NF(x), NF(w)
 		p := Mul(bx, bw)
